@@ -96,6 +96,16 @@ var c13Roles = []c13Role{
 		}
 		return strings.Join(rules, "") + fmt.Sprintf("SecRule ARGS:k \"@streq %s\" \"id:23,phase:1,deny,status:421,t:none,t:urlDecode,t:removeNulls,t:lowercase\"\n", s), nil
 	}},
+	{"pmws", 3, func(s string, v int) (string, map[string]string) {
+		// phrase lists that differ only in their white space: one space (two
+		// words), two spaces (contains the empty word), a tab (one phrase)
+		sep := []string{" ", "  ", "\t"}[v]
+		return fmt.Sprintf("SecRule ARGS \"@pm %s%szzz\" \"id:24,phase:1,deny,status:424\"\n", s, sep), nil
+	}},
+	{"dsuse", 1, func(s string, v int) (string, map[string]string) {
+		// uses a data set it does not define: must not build, whoever defined that name before
+		return fmt.Sprintf("SecRule ARGS \"@pmFromDataset %s\" \"id:25,phase:1,deny,status:425\"\n", s), nil
+	}},
 	{"nid", 1, func(s string, v int) (string, map[string]string) {
 		return fmt.Sprintf("SecRule ARGS \"@validateNid cl %s\" \"id:7,phase:1,deny,status:407\"\n", s), nil
 	}},
@@ -157,6 +167,9 @@ func c13BuildPool() {
 				}
 				if strings.HasPrefix(a.name, "schema") || strings.HasPrefix(b.name, "schema") {
 					continue // keyed by content digest: no other role can collide with it
+				}
+				if strings.HasPrefix(a.name, "pmws") || strings.HasPrefix(b.name, "pmws") || strings.HasPrefix(a.name, "dsuse") || strings.HasPrefix(b.name, "dsuse") {
+					continue
 				}
 				if strings.HasPrefix(a.name, "pmlong") || strings.HasPrefix(b.name, "pmlong") || strings.HasPrefix(a.name, "tchain") || strings.HasPrefix(b.name, "tchain") {
 					continue // these two roles meet their own variants (same string), not other roles
@@ -366,9 +379,14 @@ func c13Run(w *verifrt.World, tier Tier) *RunResult {
 	// chains) - the histories then build exactly the configurations that compete
 	// for one cache entry or one in-flight compilation
 	if t.Draw(4) == 0 {
-		fam := pick(t, []string{"pmds", "pmfile", "schema", "rxpf", "pmlong", "tchain", "pmlong", "tchain"})
+		fam := pick(t, []string{"pmds", "pmfile", "schema", "rxpf", "pmlong", "tchain", "pmlong", "tchain", "pmws", "pmws", "ds"})
 		var only []int
 		for _, i := range related {
+			n := c13Pool[i].Name
+			if fam == "ds" && (strings.HasPrefix(n, "dsuse") || strings.HasPrefix(n, "pmds")) && !strings.Contains(n, "+") {
+				only = append(only, i)
+				continue
+			}
 			if strings.HasPrefix(c13Pool[i].Name, fam) && !strings.Contains(c13Pool[i].Name, "+") {
 				only = append(only, i)
 			}
